@@ -547,6 +547,18 @@ def k_generate(run, case):
     if direct[0] != "ok":
         run.hit("generate: option list rejected by the parser itself (skipped)")
         return
+    if rng.random() < .12:
+        # negative values in exponent notation (argparse takes "-2.5e-3" for an option on the direct
+        # command line - users put such values into a generated config instead): generate stores
+        # every numeric token that follows an option as that number, whatever its spelling
+        fl = [o for o in opts if o["kind"] == "float"]
+        o1 = fl[rng.integers(len(fl))]
+        tok = ["-2.5e-3", "-1e-2", "-4.25E-1", "-1e3"][rng.integers(4)]
+        out = contracts.outcome_of(main_config.generate, [o1["opt"], tok, "--" + ("align" if tool != "traj" else "sync")])
+        key_ = o1["opt"].lstrip("-")
+        run.check(out[0] == "ok" and isinstance(out[1].get(key_), (int, float)) and not isinstance(out[1].get(key_), bool) and
+                  float(out[1][key_]) == float(tok) and len(out[1]) == 2, "generate stores negative exponent-notation values as numbers", case,
+                  "generate([%s, %s, ...]) gives %r" % (o1["opt"], tok, out[1]), key="generate:negative-exponent")
     via = "function" if rng.random() < .5 else "cli"
     work = os.environ.get("VMON_WORK", ".")
     cfg_path = os.path.join(work, "gen_%d.json" % case["rs"][-1])
